@@ -91,14 +91,12 @@ func (c Channel) MarshalXML(e *xml.Encoder, _ xml.StartElement) error {
 // UnmarshalXML implements xml.Unmarshaler.
 func (c *Channel) UnmarshalXML(d *xml.Decoder, start xml.StartElement) error {
 	data := struct {
-		XMLName    xml.Name `xml:"urn:xmpp:bookmarks:1 conference"`
-		Name       string   `xml:"name,attr"`
-		Autojoin   bool     `xml:"autojoin,attr"`
-		Nick       string   `xml:"nick"`
-		Password   string   `xml:"password"`
-		Extensions struct {
-			Val []byte `xml:",innerxml"`
-		} `xml:"extensions"`
+		XMLName    xml.Name    `xml:"urn:xmpp:bookmarks:1 conference"`
+		Name       string      `xml:"name,attr"`
+		Autojoin   bool        `xml:"autojoin,attr"`
+		Nick       string      `xml:"nick"`
+		Password   string      `xml:"password"`
+		Extensions rawChildren `xml:"extensions"`
 	}{}
 	err := d.DecodeElement(&data, &start)
 	if err != nil {
@@ -109,6 +107,41 @@ func (c *Channel) UnmarshalXML(d *xml.Decoder, start xml.StartElement) error {
 	c.Name = data.Name
 	c.Nick = data.Nick
 	c.Password = data.Password
-	c.Extensions = data.Extensions.Val
+	c.Extensions = []byte(data.Extensions)
 	return nil
+}
+
+// rawChildren collects the content of an element as XML text.
+// A field tagged innerxml is only filled when the decoder reads raw bytes;
+// bookmarks that are fetched over a session are decoded from a token stream,
+// so the content is written out again token by token.
+type rawChildren []byte
+
+// UnmarshalXML implements xml.Unmarshaler.
+func (r *rawChildren) UnmarshalXML(d *xml.Decoder, start xml.StartElement) error {
+	var buf bytes.Buffer
+	e := xml.NewEncoder(&buf)
+	depth := 0
+	for {
+		tok, err := d.Token()
+		if err != nil {
+			return err
+		}
+		switch tok.(type) {
+		case xml.StartElement:
+			depth++
+		case xml.EndElement:
+			if depth == 0 {
+				if err = e.Flush(); err != nil {
+					return err
+				}
+				*r = buf.Bytes()
+				return nil
+			}
+			depth--
+		}
+		if err = e.EncodeToken(xml.CopyToken(tok)); err != nil {
+			return err
+		}
+	}
 }
